@@ -102,6 +102,50 @@ func headerTampers() []tamper {
 		{"update.block-hash", func(e *chain.Entry) bool { e.SU.BlockHash = bump(e.SU.BlockHash); return true }, false, false},
 		{"update.new-root", func(e *chain.Entry) bool { e.SU.NewRoot = bump(e.SU.NewRoot); return true }, true, false},
 		{"update.old-root", func(e *chain.Entry) bool { e.SU.OldRoot = bump(e.SU.OldRoot); return true }, true, false},
+		// distinguished replacement values (a guard that special-cases "empty" or compares the wrong pair of roots
+		// survives a +1): zero, and the other root of the same update
+		{"update.old-root:=0", func(e *chain.Entry) bool {
+			if e.SU.OldRoot.IsZero() {
+				return false
+			}
+			e.SU.OldRoot = new(felt.Felt)
+			return true
+		}, true, false},
+		{"update.old-root:=new-root", func(e *chain.Entry) bool {
+			if e.SU.OldRoot.Equal(e.SU.NewRoot) {
+				return false
+			}
+			e.SU.OldRoot = new(felt.Felt).Set(e.SU.NewRoot)
+			return true
+		}, true, false},
+		{"update.new-root:=old-root", func(e *chain.Entry) bool {
+			if e.SU.OldRoot.Equal(e.SU.NewRoot) {
+				return false
+			}
+			e.SU.NewRoot = new(felt.Felt).Set(e.SU.OldRoot)
+			return true
+		}, true, false},
+		{"update.new-root:=0", func(e *chain.Entry) bool {
+			if e.SU.NewRoot.IsZero() {
+				return false
+			}
+			e.SU.NewRoot = new(felt.Felt)
+			return true
+		}, true, false},
+		{"header.state-root:=0+update.new-root:=0", func(e *chain.Entry) bool {
+			if e.SU.NewRoot.IsZero() {
+				return false
+			}
+			e.SU.NewRoot, e.Block.GlobalStateRoot = new(felt.Felt), new(felt.Felt)
+			return true
+		}, true, false},
+		{"header.parent-hash:=0", func(e *chain.Entry) bool {
+			if e.Block.ParentHash.IsZero() {
+				return false
+			}
+			e.Block.ParentHash = new(felt.Felt)
+			return true
+		}, true, false},
 	}
 }
 
